@@ -522,6 +522,9 @@ for n, w in (("c16_scan_vs_add", "the writer's announce+scan preempted everywher
     H(n, M, "C16", ["C16", "C17"], "quick",
       "REAL MemoryManager + ReadCursor on the harness stack, 19-20 pre-loaded retirements: " + w + "; CBMC pointer checks are the oracle",
       "2 tokens, depth 1, budget 1", rules=MEMRULES, fp_restrict=FP, builtin_oracle=True, unwind=6, mem_gb=24)
+H("c03_scan_vs_add_unit", M, "C03", ["C03", "C10", "C16"], "thorough",
+  "unit level, REAL ReadCursor on the harness stack: the writer's recomputation of the slowest stream (get_max_diff, the seqlock-style scan of the stream list) preempted everywhere (shared accesses and allocation calls) by add_stream on the parent stream and by the parent's consumer taking a value; a scan that returns after add_stream has returned must cover the new stream's position; afterwards the sequential scan must equal the slowest stream",
+  "W=2, ring 2, depth 1, budget 2, up to 2 operations per site; memory manager stubbed", rules=ADDRULES)
 for n in ("c16_protocol_o0", "c16_protocol_o1"):
     HARNESSES[n]["tier"] = "thorough"
     HARNESSES[n]["timeout"] = 3000
@@ -539,7 +542,7 @@ QUICK = {
     "C05": ["c04_mp_view_inview", "c05_seq_bc_n2_streams", "c05_seq_bc_n1_shared", "c05_seq_mp_n2_shared", "c05_mp_shared_all", "c05_bc_shared_inclone"],
     "C06": ["t4_mp_n1_o0", "t3_bc_n2_o0", "t2_bc_n2_o0", "c06_bc_sibdrop_forced", "c06_bc_sibdrop_forced_n1"],
     "C07": ["c07_mp_one_o1", "c07_bc_view_o1", "c07_mp_view_o1", "c14_bc_two_sender_drops", "c14_mp_two_sender_drops"],
-    "C08": ["c08_mp_blk00_send_lap", "c08_mp_blk00_drop_lap", "c08_mp_blk00_drop"],
+    "C08": ["c08_mp_blk00_send_lap", "c08_mp_blk00_drop_lap", "c08_mp_blk00_drop", "c08_mp_blk00_exmulti_lap"],
     "C09": ["c09_mp_a1", "c09_bc_a2", "c09_mp_a3", "c09_mp_a4", "c09_bc_a5", "c09_bc_a2w", "c09_mp_a1w", "c09_bc_a5w"],
     "C10": ["c10_bc_sole_o1", "c10_bc_sib_o1", "c10_bc_addadd_sitesq"],
     "C11": ["c11_bc_drop_last_o1", "c11_bc_unsub_last_o1", "c11_bc_unsub_nonlast_o1", "c11_bc_bothhandles_sitesq", "c11_bc_droprace_sitesq", "c11_bc_addrace_sitesq"],
@@ -549,7 +552,7 @@ QUICK = {
     "C15": ["c15_bc_hist6", "c15_mp_hist6", "c15_mp_hist8", "c15_mpfut_direct_recv", "c15_bcfut_direct_recv_drop", "c15_bc_fresh_poll"],
     "C16": ["c16_protocol_seq", "c16_add_vs_scan", "c16_remove_vs_scan"],
     "C17": ["c17_teardown_mp", "c17_teardown_bc_stream", "c17_teardown_bc_clone", "c17_churn_r3_nolag", "c17_churn_r3_lag"],
-    "C18": ["c18_mp_frozen_recv", "c18_bc_frozen_send", "c18_mp_frozen_send_mw"],
+    "C18": ["c18_mp_frozen_recv", "c18_bc_frozen_send", "c18_mp_frozen_send_mw", "c18_bc_shared_inclone_mw"],
 }
 for _n, _h in HARNESSES.items():
     _h["tier"] = "thorough"
